@@ -127,6 +127,13 @@ def case_lit(sampling, E, T, B, perm, rows, flat, fpar, gath, gpar):
             f"{zll(fpar)} {zll3(gath)} {zll2(gpar)}")
 
 
+def _unstack(b):
+    """the minibatches of a stacked buffer (leading axis = minibatch)"""
+    n = int(np.asarray(b.rewards).shape[0])
+    for i in range(n):
+        yield jax.tree.map(lambda x: x[i], b)
+
+
 def api_cases(ck, quick):
     rng = ck.rng
     cases, cj = [], []
@@ -410,6 +417,34 @@ def body(ck):
     ck.classify(res, cj, sig_of=lambda i: "C09/" + cj[i]["api"].split("(")[0].replace("sequential-batches", "batches").replace("sequential", "indices+gather"),
                 relation="Batching.batch_indices/gather/flatten2 vs RolloutBuffer.flatten_axes/batch_indices/gather/batches/sample",
                 what="minibatch index rows / gathered rows are not a partition into intact, aligned samples")
+    # ---- rollouts whose observation / action leaves are NumPy arrays (assembled outside jit, e.g. from Gymnasium data), shape (T,):
+    #      every minibatch row must still be one sample with all its fields, whatever the array type of a leaf
+    from harness.common import Violation
+    rng = ck.rng
+    for T, B in ([(12, 4), (10, 3), (7, 7)] if quick else [(12, 4), (10, 3), (7, 7), (16, 5), (9, 2), (20, 6)]):
+        ids = np.arange(T)
+        f = ids.astype(float)
+        buf = RolloutBuffer(observations={"pos": np.stack([f, f + 0.5], axis=-1), "id": ids.copy()}, actions=ids.copy(), rewards=f, dones=(ids % 2 == 1),
+                            log_probs=f, values=f, states=None, action_masks=np.stack([ids % 2 == 0, ids % 3 == 0], axis=-1), returns=f, advantages=f)
+        seed = int(rng.integers(0, 2 ** 31 - 1))
+        ck.current_case = {"api": "numpy-leaves", "num_steps": T, "batch_size": B, "seed": seed}
+        flat = buf.flatten_axes()
+        rows = np.asarray(flat.batch_indices(B, key=jr.key(seed)))
+        got = [flat.gather(jnp.asarray(r)) for r in rows] + list(_unstack(buf.batches(B, key=jr.key(seed))))
+        ck.count("numpy_leaf_minibatches", len(got)); ck.evaluations += len(got)
+        ck.case_seen(("numpy-leaves", T, B))
+        for g in got:
+            rid = np.asarray(g.rewards).astype(int)
+            cols = {"observations.id": np.asarray(g.observations["id"]), "observations.pos[0]": np.asarray(g.observations["pos"])[..., 0],
+                    "actions": np.asarray(g.actions), "log_probs": np.asarray(g.log_probs), "advantages": np.asarray(g.advantages)}
+            bad = [nm for nm, c in cols.items() if c.shape != rid.shape or not np.array_equal(c.astype(int), rid)]
+            if bad or len(set(rid.tolist())) != len(rid):
+                ck.violations.append(Violation("impl-violates-property", "C09/numpy-leaves",
+                                               "a minibatch of a rollout with NumPy observation / action leaves is not a set of intact samples: fields "
+                                               f"{bad} do not belong to the rows selected for rewards / log-probs / advantages",
+                                               case={**ck.current_case, "row_ids_by_rewards": rid.tolist(), **{k: np.asarray(v).tolist() for k, v in cols.items()}}))
+                break
+    ck.current_case = None
     ecases, ej = train_cases(ck, quick)
     ck.log(f"{len(ecases)} PPO.train cases generated")
     nt = [j for j in ej if j["minibatches_per_epoch"] >= 2 and j["num_epochs"] >= 2 and j["N"] % j["batch_size"] != 0]
